@@ -20,6 +20,16 @@ class Prop(RefProp):
             '(with pype: own/shared context, out, raiseError, Stop vs StopPipeline): executed steps, outcome, watched keys')
     trusted_base = EngineProp.engine_trusted
 
+    def generate(self, rng, n, tier):
+        import gen_pipes
+        cases = []
+        for _ in range(n):
+            case = gen_pipes.gen_case(rng, self.profile)
+            if rng.random() < 0.12 and len(case['lib']) >= 2:
+                parser_failure_family(rng, case)
+            cases.append(case)
+        return cases
+
     def monitor(self, case, obs):
         out = RefProp.monitor(self, case, obs)
         has_tagless_probe = any(st.get('simple') and st['body'] == 'probe'
@@ -35,3 +45,41 @@ class Prop(RefProp):
                                     f'step {tag} of pipeline {owner!r} ran with current_pipeline = {pipe!r}'))
                     break
         return out
+
+
+def parser_failure_family(rng, case):
+    """child whose context parser fails (or not), with a failure handler that calls, stops, fails;
+    the parent pypes it first and then carries on."""
+    child = case['lib'][1][0]
+    groups = case['lib'][1][1]
+    if not any(g == 'context_parser' for g, _ in groups):
+        groups.insert(0, ['context_parser', None])
+    handler = [{'body': 'probe', 'in': [['ptag', f'{child}/on_failure/0']]}]
+    kind = rng.choice(['call', 'call', 'stoppipeline', 'stopstepgroup', 'stop', 'fail', 'probe'])
+    if kind == 'call':
+        handler.append({'body': 'call', 'in': [['ptag', f'{child}/on_failure/1'], ['call', 'gz']]})
+    elif kind == 'fail':
+        handler.append({'body': 'fail', 'in': [['ptag', f'{child}/on_failure/1'],
+                                              ['vfail', {'d': [['err', 'RuntimeError'], ['msg', 'handler']]}]]})
+    elif kind != 'probe':
+        handler.append({'body': kind, 'in': [['ptag', f'{child}/on_failure/1']]})
+    handler.append({'body': 'probe', 'in': [['ptag', f'{child}/on_failure/2']]})
+    case['lib'][1][1] = [[g, s] for g, s in groups if g != 'on_failure'] + [['on_failure', handler]]
+    # keep gz last
+    gl = case['lib'][1][1]
+    gl.sort(key=lambda gs: gs[0] == 'gz')
+    cfg = [['name', child], ['pipeArg', rng.choice(['fail', 'fail x', 'ok', 'none'])]]
+    if rng.random() < 0.4:
+        cfg.append(['raiseError', rng.choice([True, False])])
+    if rng.random() < 0.3:
+        cfg.append(['useParentContext', rng.choice([True, False])])
+    first = {'body': 'pype', 'in': [['ptag', 'main/steps/0'], ['pype', {'d': cfg}]]}
+    if rng.random() < 0.3:
+        first['swallow'] = True
+    main_groups = case['lib'][0][1]
+    for g in main_groups:
+        if g[0] == 'steps' and g[1] is not None:
+            g[1] = [first] + g[1][1:] + [{'body': 'probe', 'in': [['ptag', 'main/steps/after']]}]
+            break
+    else:
+        main_groups.insert(0, ['steps', [first, {'body': 'probe', 'in': [['ptag', 'main/steps/after']]}]])
